@@ -124,6 +124,9 @@ def _run_scenario(it, plan, mode):
                     else: val = Agg('ark_curve::element::affine::AffinePoint', [Agg('Affine', [FE.sym('Fq', 'cx'), FE.sym('Fq', 'cy')])])
                 clo = Agg('{closure@harness}', [])
                 def m_clo(I_, fr, fn, a, val=val):
+                    f_ = a[0]
+                    while isinstance(f_, Ref): f_ = I_.deref(f_)
+                    if not (isinstance(f_, Agg) and f_.name == '{closure@harness}'): return NotImplemented
                     # the caller's value closure: the crate evaluates it eagerly in every mode (`let p = f()?;`), so a circuit
                     # has to hand over a (dummy) value in setup mode as well - as the repository's own test circuits do
                     return ok(val)
@@ -218,33 +221,51 @@ def check_shapes(part=None, nparts=1):
 
 def check_public_input():
     """ElementVar::new_input allocates exactly one Fq input whose value is the field encoding; ToConstraintField agrees"""
-    from .curve import items_for, compare_fe, mk_element
+    from .curve import items_for
     items = items_for('ark'); obs = []
-    it = mirsym.find_item_hdr(items, r'^ark_curve::r1cs::element::.*::new_variable$', r'AllocVar<Element, Fq> for ElementVar')
     co = [FE.sym('Fq', n) for n in 'XYZT']
+    for vt in ('Element', 'AffinePoint'):
+        obs += _public_input_one(items, vt, co)
+    return obs + _to_field_elements(items, co)
+
+def _public_input_one(items, vt, co):
+    from .curve import compare_fe, mk_element
+    obs = []
+    try: it = mirsym.find_item_hdr(items, r'^ark_curve::r1cs::element::.*::new_variable$', rf'AllocVar<{vt}, Fq> for ElementVar')
+    except Unsupported as e: return [Ob(f'r1cs-shape:public input allocation from {vt}', 'inconclusive', str(e), 0, 'mirsym/R1CS')]
     def body(I, h, items_):
-        el = mk_element('ark', *co)
+        if vt == 'Element': el = mk_element('ark', *co); gen = 'ark_curve::element::projective::Element'; sp = spec.encode(I, *co)
+        else:
+            el = Agg('ark_curve::element::affine::AffinePoint', [Agg('Affine', [co[0], co[1]])]); gen = 'ark_curve::element::affine::AffinePoint'
+            sp = spec.encode(I, co[0], co[1], FE.const('Fq', 1), co[0].mul(co[1]))
         clo = Agg('{closure@harness}', [])
-        I.models['fns'] = [(r'^<impl FnOnce.* as core::ops::FnOnce<\(\)>>::call_once$', lambda I_, fr, fn, a: ok(el))] + I.models['fns']
-        r = I.call_item(it, [CSRef(), clo, Enum('ark_r1cs_std::alloc::AllocationMode', 'Input', [])], generics={'T': 'ark_curve::element::projective::Element'})
-        return r, spec.encode(I, *[co[0], co[1], co[2], co[3]])
+        I.models['fns'] = [(r'^<impl FnOnce.* as core::ops::FnOnce<\(\)>>::call_once$', r1cs.harness_closure(el))] + I.models['fns']
+        r = I.call_item(it, [CSRef(), clo, Enum('ark_r1cs_std::alloc::AllocationMode', 'Input', [])], generics={'T': gen})
+        return r, sp
     try: _, recs = run_r1cs(body, 'honest')
     except Exception as e:
-        return [Ob('r1cs-shape:public input allocation', 'inconclusive', f'{type(e).__name__}: {e} :: ' + ' <- '.join(getattr(e, 'mir_stack', [])[:3]), 0, 'mirsym/R1CS')]
+        return [Ob(f'r1cs-shape:public input allocation from {vt}', 'inconclusive', f'{type(e).__name__}: {e} :: ' + ' <- '.join(getattr(e, 'mir_stack', [])[:3]), 0, 'mirsym/R1CS')]
     for r in recs:
-        nm = f'r1cs-shape:ElementVar::new_input contributes exactly one instance variable = field encoding [path {pathtag(r)}]'
+        nm = f'r1cs-shape:ElementVar::new_input from {vt} contributes exactly one instance variable = field encoding [path {pathtag(r)}]'
         if 'pruned' in r: continue
         if 'panic' in r: obs.append(Ob(nm, 'violated', 'panics: ' + r['panic'], 0, 'mirsym/R1CS', None, {'kind': 'r1cs-pubinput', 'build': 'ark'})); continue
         res, sp = r['result']; st = r['ctx'].store
         inputs = [e for e in st.trace if 'new_input' in e[0] or ('new_variable' in e[0] and 'mode:Input' in e[1])]
         allocs = [e for e in st.trace if 'new_witness' in e[0] or 'new_variable' in e[0] or 'new_input' in e[0]]
-        if len(inputs) != 1 or len(allocs) != 1:
-            obs.append(Ob(nm, 'violated', f'{len(inputs)} input allocations, {len(allocs)} allocations in total: {[e[0] for e in allocs]}', 0, 'mirsym/R1CS (shape trace)', None, {'kind': 'r1cs-pubinput', 'build': 'ark'})); continue
+        # instance variables contributed: a field/Boolean input is one, an AffineVar allocated in Input mode is two (x and y)
+        n_inst = sum(2 if 'omit_' in e[0] else 1 for e in inputs)
+        if n_inst != 1 or len(allocs) != 1:
+            obs.append(Ob(nm, 'violated', f'{n_inst} instance variables from {len(inputs)} input allocation(s), {len(allocs)} allocations in total: {[e[0] for e in allocs]}', 0, 'mirsym/R1CS (shape trace)', None, {'kind': 'r1cs-pubinput', 'build': 'ark'})); continue
         vals = [x for x in st.log if x[0] == 'fq']
         if len(vals) != 1: obs.append(Ob(nm, 'inconclusive', f'{len(vals)} logged values', 0, 'mirsym/R1CS')); continue
         o = compare_fe(nm, vals[0][2], sp, {}, rec=r)
         if o.status == 'violated': o.model = {'kind': 'r1cs-pubinput', 'build': 'ark'}
         obs.append(o)
+    return obs
+
+def _to_field_elements(items, co):
+    from .curve import compare_fe, mk_element
+    obs = []
     # ToConstraintField
     it2 = find_item(items, r'^ark_curve::r1cs::<impl at [^>]*>::to_field_elements$')
     def body2(I, h, items_):
